@@ -298,10 +298,20 @@ Theorem g_init_eq : forall n,
   (g_init_enabled n = false <-> g_init_cache_capacity n = None).
 Proof. intro n. destruct n; cbn; repeat split; intros; congruence. Qed.
 
+(* cache_purge_level: the accepted levels are 0, 1, 2; among them the cache (and DeepDiff's reference to `hashes`) is deleted - after the
+   result is built - exactly for the levels 1 and 2, and the object is emptied exactly for level 2 *)
+Theorem g_purge_eq : forall n,
+  g_purge_level_accepted n = purge_level_accepted n /\ g_purge_deletes_cache n = purge_deletes_cache n /\
+  g_purge_clears_object n = purge_clears_object n /\
+  (g_purge_level_accepted n = true -> (g_purge_deletes_cache n = false <-> n = 0%nat) /\ (g_purge_clears_object n = true <-> n = 2%nat)).
+Proof.
+  intro n. destruct n as [|[|[|n]]]; cbn; repeat split; intros; try congruence; try discriminate.
+Qed.
+
 Print Assumptions g_run_eq.
 Definition all_final := (g_combine_hashes_lists_eq, g_pairs_key_eq, g__get_distance_cache_key_eq, g__get_rough_distance_of_hashed_objs_eq,
   g__get_most_in_common_pairs_in_iterables_eq, C17gen_cache_transparent_partial, C17gen_cache_invariant_partial,
   C17gen_cache_settings_agree_partial, C17gen_cache_off_is_pure, C17gen_sorted_key_consistent_if_symmetric, C17gen_sorted_key_refuted,
   C17gen_pairs_key_ignores_order, C17gen_pairs_order_refuted, g__auto_off_cache_eq, g_auto_off_decision_eq, g__auto_tune_cache_eq,
-  g_tuner_keeps_counters, g_init_eq).
+  g_tuner_keeps_counters, g_init_eq, g_purge_eq).
 Print Assumptions all_final.
